@@ -351,7 +351,15 @@ async fn client(setup: &Setup, port: u16) -> Obs {
         Ok(Ok(Ok((conn, mut ldap)))) => {
             o.establish = "Ok".into();
             ldap3::drive!(conn);
-            o.reserved_ids.push(ldap.verif_id_table().1);
+            let mut table = ldap.verif_id_table().1;
+            for _ in 0..40 {
+                if table.is_empty() {
+                    break;
+                }
+                tokio::time::sleep(Duration::from_millis(50)).await;
+                table = ldap.verif_id_table().1;
+            }
+            o.reserved_ids.push(table);
             // two binds: their message IDs are 2 and 3 (StartTLS used 1) or 1 and 2 (ldaps)
             for _ in 0..2 {
                 let r = tokio::time::timeout(Duration::from_secs(5), ldap.simple_bind("cn=x", "secret")).await;
@@ -361,7 +369,18 @@ async fn client(setup: &Setup, port: u16) -> Obs {
                     Err(_) => "Hung".into(),
                 });
             }
-            o.reserved_ids.push(ldap.verif_id_table().1);
+            // real threads, real time: the driver releases an ID right after handing the result to the
+            // caller, so "nothing outstanding" is only observable a moment later; wait for the table to
+            // settle (up to 2 s) instead of reading it in the same instant
+            let mut table = ldap.verif_id_table().1;
+            for _ in 0..40 {
+                if table.is_empty() {
+                    break;
+                }
+                tokio::time::sleep(Duration::from_millis(50)).await;
+                table = ldap.verif_id_table().1;
+            }
+            o.reserved_ids.push(table);
             let _ = tokio::time::timeout(Duration::from_secs(2), ldap.unbind()).await;
         }
     }
